@@ -52,6 +52,34 @@ fn sv<T: Writeable>(t: &T, v: ProtocolVersion) -> Vec<u8> {
 	ser::ser_vec(t, v).expect("ser_vec")
 }
 
+/// `CompactBlock::from(block)` draws its short-id nonce from thread_rng. The same compact block with a
+/// nonce chosen by the simulator: written by hand in the wire layout and read back.
+pub fn det_compact_block(b: &grin_core::core::Block, nonce: u64, v: ProtocolVersion) -> CompactBlock {
+	use grin_core::core::id::ShortIdentifiable;
+	let mut outs: Vec<_> = b.outputs().iter().filter(|x| x.is_coinbase()).cloned().collect();
+	let mut kerns = vec![];
+	let mut ids = vec![];
+	for k in b.kernels() {
+		if k.is_coinbase() {
+			kerns.push(k.clone());
+		} else {
+			ids.push(k.short_id(&b.header.hash(), nonce));
+		}
+	}
+	outs.sort_unstable();
+	kerns.sort_unstable();
+	ids.sort_unstable();
+	let mut bytes = sv(&b.header, v);
+	bytes.extend_from_slice(&nonce.to_be_bytes());
+	bytes.extend_from_slice(&(outs.len() as u64).to_be_bytes());
+	bytes.extend_from_slice(&(kerns.len() as u64).to_be_bytes());
+	bytes.extend_from_slice(&(ids.len() as u64).to_be_bytes());
+	bytes.extend(sv(&outs, v));
+	bytes.extend(sv(&kerns, v));
+	bytes.extend(sv(&ids, v));
+	ser::deserialize(&mut &bytes[..], v, ser::DeserializationMode::default()).expect("hand-written compact block decodes")
+}
+
 fn wm<T: Writeable>(ty: Type, name: &str, t: &T, v: ProtocolVersion) -> WireMsg {
 	WireMsg {
 		ty: ty as u8,
@@ -499,7 +527,7 @@ pub fn corpus(world: &World, v: ProtocolVersion, rng: &mut SimRng) -> Vec<WireMs
 	let b = block_for_version(world, pick_block(rng), v);
 	out.push(wm(Type::Block, "block", &b, v));
 	let b2 = if let Some(i) = with_tx.last() { &world.blocks[*i].block } else { pick_block(rng) };
-	let cb: CompactBlock = b2.clone().into();
+	let cb: CompactBlock = det_compact_block(b2, rng.next_u64(), v);
 	out.push(wm(Type::CompactBlock, "compactblock", &cb, v));
 	out.push(wm(Type::Header, "header", &pick_block(rng).header, v));
 	let nloc = rng.range(0, 20) as usize;
@@ -1458,6 +1486,9 @@ pub fn c11_case(tier: &str, seed: u64, case: u64) -> CaseResult {
 					res.fault(&format!("mutation:{}", kind));
 				}
 				res.run_digests.push((fnv64(&f), true));
+				if std::env::var("VERIF_DEBUG").is_ok() {
+					eprintln!("  c11 v{} {} {} base {:016x} frame {:016x}", vnum, m.name, what, fnv64(&base), fnv64(&f));
+				}
 				let replay = json!({"engine": "wiresim", "property": "C11", "mode": "hostile", "version": v.0, "stream": hexs(&f), "cut": cut, "base": m.name, "mutation": what});
 				// the codec reserves the announced body length (refused above 4x the per-type limit)
 				// before reading; everything else must stay within a small multiple of what was
